@@ -176,7 +176,20 @@ static void run_case(Ctx& c, uint64_t idx) {
             size_t e; if (dfa_uriref(B, &e)) { Comp b = split(B); Comp s = b; StrVec segs; bool abs; path_to_segments(b.path, b.hasAuth, &abs, &segs);
                 int op = r.below(5); if (op == 0 && !segs.empty()) segs.pop_back(); else if (op == 1) segs.push_back(gen_segment(r, false, true, false)); else if (op == 2 && !segs.empty()) segs.back() = gen_segment(r, false, true, false); else if (op == 3) segs.push_back(""); else if (!segs.empty()) segs[r.below((uint32_t)segs.size())] = gen_segment(r, false, true, false);
                 s.path = segments_to_path(b.hasAuth, abs, segs); if (r.coin()) { s.hasQuery = r.coin(); s.query = "k"; } if (r.chance(1, 4)) { s.hasFrag = true; s.frag = "f"; } S = recompose(s); gen = "overlap"; } else S = B; } break;
-        default: { size_t e; if (dfa_uriref(B, &e)) { Comp b = split(B); Comp s = b; int op = r.below(4); if (op == 0) { s.hasPort = !s.hasPort; s.port = "9"; } else if (op == 1) { s.hasUser = !s.hasUser; s.user = "w"; } else if (op == 2 && s.hasAuth) { s.host = "other"; s.hostKind = HK_REGNAME; s.ip.clear(); } else { s.hasAuth = !s.hasAuth; if (s.hasAuth) { s.hostKind = HK_REGNAME; s.host = "h"; if (!s.path.empty() && s.path[0] != '/') s.path = "/" + s.path; } else { s.hasUser = s.hasPort = false; s.hostKind = HK_NONE; s.host.clear(); s.ip.clear(); } } if (!s.hasAuth) { s.hasUser = s.hasPort = false; } S = recompose(s); gen = "authority-variant"; } else S = B; } break;
+        default: { size_t e; if (dfa_uriref(B, &e)) { Comp b = split(B); Comp s = b; int op = r.below(4); if (op == 0) { static const char* const DP[] = {"9", "80", "443", "21", "8080", "", "080", "65535"}; s.hasPort = !s.hasPort; s.port = DP[r.below(8)]; } else if (op == 1) { s.hasUser = !s.hasUser; s.user = "w"; } else if (op == 2 && s.hasAuth) { s.host = "other"; s.hostKind = HK_REGNAME; s.ip.clear(); } else { s.hasAuth = !s.hasAuth; if (s.hasAuth) { s.hostKind = HK_REGNAME; s.host = "h"; if (!s.path.empty() && s.path[0] != '/') s.path = "/" + s.path; } else { s.hasUser = s.hasPort = false; s.hostKind = HK_NONE; s.host.clear(); s.ip.clear(); } } if (!s.hasAuth) { s.hasUser = s.hasPort = false; } S = recompose(s); gen = "authority-variant"; } else S = B; } break;
+        }
+        if (r.chance(1, 16)) {      // the shapes scheme-specific special cases key on: default ports, file: with an empty authority or localhost, drive letters
+            static const struct { const char* scheme; const char* port; } W[] = {{"http", "80"}, {"https", "443"}, {"ftp", "21"}, {"ws", "80"}, {"wss", "443"}, {"HTTP", "80"}, {"file", ""}, {"file", "0"}, {"File", ""}, {"ldap", "389"}, {"urn", ""}, {"mailto", ""}};
+            static const char* const HS[] = {"example.com", "www.example.com", "localhost", "EXAMPLE.com", "127.0.0.1", "[::1]", "h", ""};
+            static const char* const PS[] = {"", "/", "/index.html", "/a/b", "/a/c", "/a/b/", "/a/b/c/d", "/etc/hosts", "/etc/passwd", "/C:/a", "/C:/b/c", "/~user/", "//srv/share/x", "a/b", "ISBN:1", "isbn:2", "u@h"};
+            const auto& w = W[r.below(12)]; const char* h = HS[r.below(8)];
+            auto mk = [&](const char* host) { Str t = w.scheme; t += ':'; int ak = r.chance(1, 4) ? (int)r.range(1, 2) : 0; Str path = PS[r.below(17)];
+                if (ak == 0) { t += "//"; t += host; int pk = (int)r.below(4); if (pk == 1) { t += ':'; t += w.port; } else if (pk == 2) t += ':'; if (!path.empty() && path[0] != '/') path = "/" + path; }
+                else if (ak == 1) { t += "//"; if (!path.empty() && path[0] != '/') path = "/" + path; }
+                else if (path.size() >= 2 && path[0] == '/' && path[1] == '/') path = path.substr(1);
+                return t + path; };
+            S = mk(h); B = mk(r.chance(1, 6) ? HS[r.below(8)] : h);
+            gen = "well-known";
         }
         if (r.chance(1, 12)) {      // authority comparison per host kind: same address spelled differently, one byte / one letter different, look-alikes of another kind
             static const char* const HG[][6] = {{"1.2.3.4", "1.2.3.5", "1.2.4.4", "2.2.3.4", "1.2.3.04", "1.2.3.4"}, {"[::1]", "[0:0:0:0:0:0:0:1]", "[::2]", "[1::1]", "[::0.0.0.1]", "[::1:0:1]"},
